@@ -287,6 +287,8 @@ def verify_contract(name, tier='quick', seed=0, repo=None, known=()):
                 return
             c.post(g, res, args, kwargs)
 
+        bad_total = [0]
+
         def on_path(pi, p):
             if not p.live and not p.cut:
                 # vacuity guard: the path must be reachable under requires
@@ -314,12 +316,15 @@ def verify_contract(name, tier='quick', seed=0, repo=None, known=()):
                     base = re.sub(r'\[[0-9, ]*\]$', '', ob.name)
                     if base in bad_bases:
                         b = min(b, 4.0)     # a sibling entry of the same clause already failed on this path
+                    if bad_total[0] > 12:
+                        b = min(b, 2.0)     # the contract already fails in many places: do not spend the budget on each
                     if any(re.search(k, ob.name) for k in known):
                         b = 0.0     # clause listed as a known finding: samples and ring only, no solver runs
                     v = discharge(ob, alg, p.strict_live(), b, tier)
                 except EngineError as e:
                     v = dict(status='error', backend='engine', s=0.0, detail=str(e)[:300])
                 if v['status'] != 'proved':
+                    bad_total[0] += 1
                     bad_bases.add(re.sub(r'\[[0-9, ]*\]$', '', ob.name))
                 rec = dict(name=ob.name, kind=ob.kind, path=pi, pc=pc_txt, goal=T.show(ob.goal, 4)[:200])
                 rec.update(v)
